@@ -16,3 +16,23 @@ Theorem C04_text_unchanged : forall c, nul_free (pm_message c) -> Forall tlv_ok 
   plainDataMsg_deser (plainDataMsg_ser (plainDataMsg_pad c)) = Some (plainDataMsg_pad c).
 Proof. exact plainDataMsg_pad_roundtrip. Qed.
 Print Assumptions C04_text_unchanged.
+
+(* the key-id window under FIFO delivery: in EVERY schedule of sends by either side and in-order deliveries, from the
+   state right after a key exchange, each message's key ids are inside the receiver's window when it arrives - no
+   genuine message is refused for its key ids, whatever the interleaving and however many rotations happen *)
+From OTR Require Import Proto.Ratchet.
+Theorem C04_window_never_missed : forall sched, run_ok net_init sched.
+Proof. exact window_never_missed_from_start. Qed.
+Print Assumptions C04_window_never_missed.
+
+(* ... and that abstraction is the key-id dynamics of the key-management model that is compared with the code:
+   sending writes exactly [emit] and leaves the sender's ids alone; an accepted message was inside the window and moves
+   the receiver's ids exactly as [absorb] does *)
+Theorem C04_send_is_emit : forall k h flag pl d k' x, genDataMsg k h flag pl = Ok (d, k', x) ->
+  msg_of d = emit (side_of k) /\ side_of k' = side_of k.
+Proof. exact gen_is_emit. Qed.
+Print Assumptions C04_send_is_emit.
+Theorem C04_receive_is_absorb : forall k d x pl k' xk, recvDataMsg k d x = Ok (pl, k', xk) ->
+  ids_in_window (side_of k) (msg_of d) /\ side_of k' = absorb (side_of k) (msg_of d).
+Proof. exact recv_is_absorb. Qed.
+Print Assumptions C04_receive_is_absorb.
